@@ -143,9 +143,28 @@ fn el_snapshot<H: HandlerTypes>(el: &Element<'_, '_, H>, full: bool) -> Value {
             }
         })
         .collect();
+    let mut q: Vec<Value> = Vec::new();
+    if full {
+        // lookups: every attribute name as written, upper-cased, lower-cased, plus an absent name
+        let mut names: Vec<String> = Vec::new();
+        for a in el.attributes() {
+            let n = a.name_preserve_case();
+            names.push(n.to_ascii_uppercase());
+            names.push(n.to_ascii_lowercase());
+            names.push(n);
+        }
+        names.push("zz-absent".to_string());
+        names.dedup();
+        for n in names {
+            let g = el.get_attribute(&n);
+            q.push(json!({"op":"get_attr","arg":s2cp(&n),"has":g.is_some(),"v":s2cp(&g.unwrap_or_default())}));
+            q.push(json!({"op":"has_attr","arg":s2cp(&n),"has":el.has_attribute(&n),"v":[]}));
+        }
+    }
     json!({
         "name": s2cp(&el.tag_name()),
         "nameraw": s2cp(&el.tag_name_preserve_case()),
+        "q": q,
         "attrs": attrs,
         "ns": el.namespace_uri(),
         "sc": el.is_self_closing(),
